@@ -34,8 +34,14 @@ for d in sorted(glob.glob(os.path.join(ROOT, "seeded", "*"))):
     st[1] += 1
     st[0] += fs == "detected"
     rows.append(f"| {sid} | {rnd} | {summ} | {'; '.join(det) or 'NOT DETECTED'} | {fs} | {note} |")
-print("| id | round | change (abridged) | detected by (signature) | first shot | what the miss added |")
-print("|---|---|---|---|---|---|")
-print("\n".join(rows))
-print()
-print("first-shot detection per round:", {k: f"{v[0]} of {v[1]}" for k, v in sorted(stats.items())})
+out = ["| id | round | change (abridged) | detected by (signature) | first shot | what the miss added |", "|---|---|---|---|---|---|"] + rows
+out += ["", "First-shot detection per round: " + ", ".join(f"round {k}: {v[0]} of {v[1]}" for k, v in sorted(stats.items())) + "."]
+text = "\n".join(out)
+import sys
+if "--update" in sys.argv:
+    p = os.path.join(ROOT, "DESIGN.md")
+    s = open(p).read()
+    a, b = s.index("<!-- seeded-table-begin -->") + len("<!-- seeded-table-begin -->"), s.index("<!-- seeded-table-end -->")
+    open(p, "w").write(s[:a] + "\n" + text + "\n" + s[b:])
+else:
+    print(text)
